@@ -27,3 +27,5 @@ pub mod factoring;
 pub use factoring::*;
 pub mod sieve;
 pub use sieve::*;
+pub mod numint;
+pub use numint::*;
